@@ -4,6 +4,34 @@
 use super::*;
 use crate::verif_common::*;
 
+// @verif props=C13 tier=quick cap=600 group=core fns=Environment::set_fuel,Environment::fuel,State::new,State::fuel_levels,FuelTracker::new
+/// The configured budget reaches the render's tracker unchanged: for EVERY Option<u64> budget (0 and u64::MAX
+/// included) Environment::fuel() returns what set_fuel stored, a fresh State tracks fuel iff a budget is set,
+/// and it starts at consumed == 0, remaining == budget (so consumed + remaining == budget from the start).
+#[kani::proof]
+#[kani::unwind(4)]
+#[kani::stub(std::hash::RandomState::new, crate::verif_common::random_state_stub)]
+fn c13_env_budget_reaches_tracker() {
+    let budget: Option<u64> = kani::any();
+    let mut env = Environment::empty();
+    assert!(env.fuel().is_none());
+    env.set_fuel(budget);
+    assert!(env.fuel() == budget);
+    let env: &'static Environment<'static> = Box::leak(Box::new(env));
+    let state = State::new_for_env(env);
+    match (budget, state.fuel_levels()) {
+        (None, None) => {}
+        (Some(b), Some((consumed, remaining))) => {
+            assert!(consumed == 0 && remaining == b);
+        }
+        _ => assert!(false),
+    }
+    kani::cover!(budget == Some(0));
+    kani::cover!(budget == Some(u64::MAX));
+    kani::cover!(budget.is_none());
+    core::mem::forget(state);
+}
+
 #[cfg(test)]
 mod playback {
     use super::*;
